@@ -255,7 +255,7 @@ def run(ctx, repo):
     rk_fn = Cm.get('_rank')
     if rk_fn is None:
         raise AnalysisError('anchor vanished: _rank')
-    tie_ifs = [n for n in ast.walk(rk_fn) if isinstance(n, ast.If) and '_place == 1' in ast.unparse(n.test) and 'rankj[1]' in ast.unparse(n.test)]
+    tie_ifs = [n for n in ast.walk(rk_fn) if isinstance(n, ast.If) and '[1]._place == 1' in ast.unparse(n.test)]
     if not tie_ifs:
         ctx.finding('R4', '%s::HighJumpCompetition._rank::tie-for-first detection' % HJ, HJ, rk_fn.lineno,
                     'no branch of _rank tests whether the second-ranked athlete also has place 1: a tie for first is not detected')
